@@ -1124,7 +1124,14 @@ impl<E: Effect> Environment<E> {
         if let Some(pending) = self.pending_awaits.get_mut(&awaiter) {
             // This is part of an initial await - collect the response
             if let Some(worker_id) = sender_worker_id {
-                pending.responses.insert(worker_id, results.clone());
+                // Merge rather than replace: a worker can report twice while the initial answers are
+                // still being collected (its snapshot, then the completion of a target that was
+                // still running), and the second report must not drop the first one's results.
+                pending
+                    .responses
+                    .entry(worker_id)
+                    .or_default()
+                    .extend(results.clone());
                 pending.expected_workers.remove(&worker_id);
 
                 // Check if all workers have responded
